@@ -308,6 +308,34 @@ pub fn ws_keepalive_case_with(rt: &tokio::runtime::Runtime, compressed: bool, n:
     })
 }
 
+/// the caller reads exactly the n keep-alives of one message and then does NOTHING (no further read, no write) for a while: all n replies must
+/// be with the peer all the same - a reply is sent when it is written, not when the caller next touches the connection.  Returns the replies received.
+pub fn ws_idle_after_reads_case(rt: &tokio::runtime::Runtime, compressed: bool, n: usize) -> usize {
+    rt.block_on(async {
+        let listener = tokio::net::TcpListener::bind("127.0.0.1:0").await.unwrap();
+        let addr = listener.local_addr().unwrap();
+        let ka: Vec<u8> = raw_frame(compressed, 3, 0, &[0]); let ka2 = ka.clone();
+        let server = tokio::spawn(async move {
+            let (tcp, _) = listener.accept().await.unwrap();
+            let ws = tokio_tungstenite::accept_async(tcp).await.unwrap();
+            let (mut tx, mut rx) = ws.split();
+            let mut m = vec![]; for _ in 0..n { m.extend_from_slice(&ka2); }
+            let _ = tx.send(Message::Binary(m)).await;
+            let mut replies = 0usize; let t0 = std::time::Instant::now();
+            while t0.elapsed() < Duration::from_millis(900) { match tokio::time::timeout(Duration::from_millis(150), rx.next()).await { Ok(Some(Ok(Message::Binary(b)))) => { replies += b.len() / ka2.len().max(1); }, Ok(Some(Ok(_))) => {}, Ok(_) => break, Err(_) => {} } }
+            replies
+        });
+        let tcp = tokio::net::TcpStream::connect(addr).await.unwrap();
+        let (ws, _) = tokio_tungstenite::client_async("ws://127.0.0.1/connect", MaybeTlsStream::Plain(tcp)).await.unwrap();
+        let mut f = AFramed::new(Box::new(WebsocketStream::from(ws)), Codec::new(mode_of(compressed)));
+        for _ in 0..n { let _ = tokio::time::timeout(Duration::from_secs(3), f.read()).await; }
+        tokio::time::sleep(Duration::from_millis(1100)).await;   // the caller is busy elsewhere; the connection stays open
+        let replies = server.await.unwrap_or(0);
+        drop(f);
+        replies
+    })
+}
+
 /// a lock-step WebSocket peer: each binary message holds 37 keep-alives (148 / 37 bytes, so that messages keep straddling the end of the
 /// connection's 6120-byte receive buffer), and the next message is sent only when every reply to the previous ones has arrived.
 /// Returns (keep-alives sent, handed to the caller, replies the peer received, rounds completed).
@@ -467,6 +495,11 @@ pub fn run(a: &Args) {
     }
     st.rule = "real WebsocketStream on a loopback tokio-tungstenite server: (a) AsyncRead driven with scripted slice sizes 1..7000 over scripts of binary (1..66000 bytes), empty binary, text, ping and pong messages, chunks compared with the payloads and the model; (b) Framed sessions of 1..700 frames (all kinds) under six partition styles (one frame per message, several per message, random mid-frame cuts, messages of 1021..20000 bytes, 1..3-byte messages, one message) with 0/10/40 % interleaved non-binary messages, ended by a close handshake; (c) every kind written, the server must receive one binary message per packet equal to its frame; non-trivial = frames split across or sharing messages".into();
     st.sample("session C 424242 60 2 10  (60 frames cut at random byte positions into binary messages, 10% noise)".into());
+    // a caller that reads its packets and then goes quiet
+    { let iort = tokio::runtime::Builder::new_multi_thread().worker_threads(2).enable_all().build().unwrap();
+      for compressed in [true, false] { for n in [1usize, 2, 7] { st.evaluations += 1; st.bump("idle after reads (websocket)");
+        let replies = ws_idle_after_reads_case(&iort, compressed, n);
+        if replies != n { st.fail(format!("[C20 websocket] the caller read the {n} keep-alive(s) of one message and then stayed idle (connection open): the peer received {replies} of the {n} replies"), format!("wsidle {} {n}", mode_tag(compressed))); } } } }
     // a lock-step peer over the WebSocket transport
     { let iort = tokio::runtime::Builder::new_multi_thread().worker_threads(2).enable_all().build().unwrap();
       for compressed in [true, false] { let rounds = if a.thorough() { 2000 } else { 400 };
